@@ -78,7 +78,7 @@ Judge(P, e) ==
           \cup (IF GLValues(P) \subseteq GLValues(O) \/ e.op \in {"remove", "pop", "fromlist", "fromdict"}
                   THEN {} ELSE {"C13_noloss"})
           \cup ObsClauses(O, e))
-    \cup (IF e.op = "copy" THEN {}
+    \cup (IF e.op \in {"copy", "sort", "sort_by"} THEN (IF e.fresh = 1 THEN {} ELSE {"C13_copy_aliasing"})
           ELSE IF ObsState(e.shadow) = shadow THEN {} ELSE {"C13_copy_aliasing"})
 
 Stops(f) == f \cap {"C13_foreign_value", "Drv_invalid_op", "C13_wf", "C13_raised"} # {}
@@ -90,7 +90,7 @@ Step ==
   /\ LET e == Events[l]  f == Judge(st, e) IN
        /\ fail' = fail \cup f
        /\ st' = IF Stops(f) THEN st ELSE ObsState(e)
-       /\ shadow' = IF e.op = "copy" THEN st ELSE shadow
+       /\ shadow' = IF e.op \in {"copy", "sort", "sort_by"} THEN st ELSE shadow     \* these return a new object: the old one is watched
        /\ l' = l + 1
        \* stop judging a case once its state is no longer a GroupedList value
        /\ done' = IF Stops(f) THEN PrintT(<<"VERDICT", tid, fail \cup f>>) ELSE FALSE
